@@ -127,6 +127,53 @@ def h_wire(cfg):
         cover('nontrivial')
 
 
+def h_reenter(cfg):
+    """the very same packet object enters the wire again while an earlier entry of it is still inside (a sender that
+    retransmits the object it keeps, a hub repeating one object): every entry is a packet on the wire in its own right"""
+    from onl.sim import Environment
+    from onl.packet import Packet
+    from onl.netdev import Wire
+    import onl.netdev.wire as wm
+    env = Environment()
+    sort = cfg['sorts']
+    st = WireEnv(env, sort)
+    saved = wm.random
+    wm.random = st
+    try:
+        wire = Wire(env, st.delay_dist)
+        rec = Rec(env)
+        wire.out = rec
+        pk = [mk_packet(Packet, 0, 1, i) for i in range(3)]
+        seq = [pk[i] for i in cfg['objects']]          # e.g. [0, 1, 1]: the second object enters twice
+        entries = []
+
+        def source():
+            for k, p in enumerate(seq):
+                yield env.timeout(sym_num('g%d' % k, sort, 0))
+                entries.append((p, env.now))
+                wire.put(p)
+
+        env.process(source())
+        try:
+            env.run()
+        except Exception as ex:  # noqa
+            fail('no-raise', '%s: %s' % (type(ex).__name__, ex))
+            return
+    finally:
+        wm.random = saved
+    delays = [v for v, pr in st.delays if pr is wire.action]
+    check('c10.nothing-lost', len(rec.log) == len(entries) and all(a is b for (a, _), (b, _) in zip(rec.log, entries)),
+          ([p.packet_id for p, _ in rec.log], [p.packet_id for p, _ in entries]))
+    if len(rec.log) == len(entries) and len(delays) == len(entries):
+        prev = None
+        for k, ((p, a), d, (_, t)) in enumerate(zip(entries, delays, rec.log)):
+            exp = a + d if prev is None else smax(a + d, prev)
+            check('c10.delivery-time', eq(t, exp), 'entry %d (object %d)' % (k, p.packet_id))
+            prev = t
+    cover('same-object-twice')
+    cover('nontrivial')
+
+
 def h_cable(cfg):
     from onl.sim import Environment
     from onl.packet import Packet
@@ -175,7 +222,7 @@ def h_cable(cfg):
     cover('nontrivial')
 
 
-HARNESSES = {'wire': h_wire, 'cable': h_cable}
+HARNESSES = {'wire': h_wire, 'cable': h_cable, 'reenter': h_reenter}
 
 
 def jobs(tier, seed):
@@ -188,6 +235,8 @@ def jobs(tier, seed):
     js.append({'harness': 'wire', 'cfg': {'n': n + 1, 'sorts': 'int', 'loss': 'none'}, 'weight': 20})
     for loss in ('none', 'sym'):
         js.append({'harness': 'wire', 'cfg': {'n': 3 if loss == 'none' else 2, 'sorts': 'int', 'loss': loss, 'twin': True}, 'weight': 30})
+    for objs in ([0, 1, 1], [0, 0, 1], [0, 1, 0]):
+        js.append({'harness': 'reenter', 'cfg': {'objects': objs, 'sorts': 'int'}, 'weight': 20})
     # longer workloads: bursts entering the wire at one instant (reordering / loss-draw binding over several packets)
     m = 6 if tier == 'quick' else 7
     js.append({'harness': 'wire', 'weight': 30, 'opts': {'max_paths': 20000},
@@ -209,7 +258,7 @@ META = {
             'non-trivial = at least two deliveries or at least one loss',
     'required_labels': ['c10.delivery-time', 'c10.loss-rule', 'c10.order-preserved', 'c10.ab.delivery-time',
                         'c10.ba.delivery-time', 'c10.cable-A-to-B-only'],
-    'required_covers': ['nontrivial', 'lost', 'two-instances'],
+    'required_covers': ['nontrivial', 'lost', 'two-instances', 'same-object-twice'],
     'bounds': {'quick': 'n=3 packets (4 without loss); cable 2+2 packets; gaps, delays >= 0 unbounded Int/Real; loss rate symbolic in [0,1]',
                'thorough': 'n=4-5 (5-6 without loss); cable 2+2 and 3+3, up to a path budget'},
     'assumptions': ['draws are bound to packets positionally per wire process: i-th loss draw = i-th packet entering, '
